@@ -961,7 +961,7 @@ func (r *netRun) tamper(f []byte) ([]byte, string) {
 			mb.Sig = model.Sig(model.NegateS([65]byte(mb.Sig)))
 			what = "block-sig-negate-s"
 		case 2:
-			mb.Sig[64] = []byte{mb.Sig[64] + 4, mb.Sig[64] ^ 1}[t.Int("tamper-recid", 2)]
+			mb.Sig[64] = []byte{mb.Sig[64] + 4, mb.Sig[64] ^ 1, mb.Sig[64] | 2, mb.Sig[64] ^ 3}[t.Int("tamper-recid", 4)]
 			what = "block-sig-recid"
 		case 3:
 			hb := mb.Head.Encode()
@@ -1004,7 +1004,7 @@ func (r *netRun) tamperTxn(mt *model.Txn) string {
 		return "negate-s"
 	case 1:
 		i := t.Int("sig-i", len(mt.Sigs))
-		mt.Sigs[i][64] = []byte{mt.Sigs[i][64] + 4, mt.Sigs[i][64] ^ 1, mt.Sigs[i][64] | 0x80}[t.Int("recid-kind", 3)]
+		mt.Sigs[i][64] = []byte{mt.Sigs[i][64] + 4, mt.Sigs[i][64] ^ 1, mt.Sigs[i][64] | 0x80, mt.Sigs[i][64] | 2, mt.Sigs[i][64] ^ 3}[t.Int("recid-kind", 5)]
 		return "recid"
 	case 2:
 		i := t.Int("out-i", len(mt.Out))
@@ -1031,7 +1031,8 @@ func (r *netRun) tamperTxn(mt *model.Txn) string {
 		mt.Inner[t.Int("inner-byte", 32)] ^= 1
 		return "flip-inner-hash"
 	case 5:
-		mt.Length++
+		// the length prefix lies outside the inner hash: one more, one less, zero, one, all ones, one bit flipped
+		mt.Length = []uint32{mt.Length + 1, mt.Length - 1, 0, 1, 0xffffffff, mt.Length ^ (1 << t.Draw("len-bit", 32))}[t.Pick("length-kind", 2, 1, 2, 1, 1, 1)]
 		return "length-field"
 	case 6:
 		return "append-bytes"
